@@ -23,7 +23,9 @@ for id in $ids; do
       out=$(timeout 1500 ./check "$p" --tier quick 2>&1); rc=$?
     fi
     kind=$(echo "$out" | grep -E "^  kind=" | head -1 | sed -E 's/^  kind=([^ ]+).*/\1/')
-    if echo "$out" | grep -q "^VIOLATION"; then res="$res $p:VIOLATION($kind)"; else res="$res $p:silent(rc=$rc)"; fi
+    if echo "$out" | grep -q "^VIOLATION"; then res="$res $p:VIOLATION($kind)";
+    elif [ $rc -eq 134 ] || [ $rc -eq 139 ] || [ $rc -eq 132 ] || [ $rc -eq 135 ] || [ $rc -eq 136 ]; then res="$res $p:VIOLATION(process.aborted,signal=$((rc-128)))"  # ./check prints the VIOLATION line for these
+    else res="$res $p:silent(rc=$rc)"; fi
   done
   git -C /repo checkout -- .
   echo "$id ->$res"
